@@ -21,9 +21,16 @@ RULE = (
     "Hypothesis draws a lattice fracture network (2-d lines with X/T/L junctions, or 3-d rectangles) meshed by cart_grid "
     "(random physical size) or tensor_grid (random non-uniform spacing), a vector dimension nd, and for 2-d networks a "
     "history of 0-3 replacements through replace_subdomains_and_interfaces: mortar side grids by refine_grid_1d(ratio "
-    "2-4) or remesh_1d (2-8 nodes, non-nested, also coarser; both sides, one side, or different on the two sides), a "
+    "2-4), remesh_1d (2-8 nodes, non-nested, also coarser) or a 'nudged' copy / refinement whose interior nodes are moved "
+    "by 5e-7, 1e-7 or 1e-9 length units off the old nodes (near-coincident nodes: sliver overlaps far below any cell size "
+    "and below the default tol) (both sides, one side, or different on the two sides), a "
     "fracture grid by refine_grid_1d / remesh_1d (at most once per fracture, as documented), the host by the host of a "
-    "1-3 times finer mesh of the same network. Oracle for EVERY interface afterwards, per mortar side: weights >= 0; "
+    "1-3 times finer mesh of the same network. Half of the 2-d cases have the whole geometry in another length unit "
+    "(factor 1e-6, 1e-4, 1e-2, 1e2, 1e4). The documented tol of replace_subdomains_and_interfaces is left at its default "
+    "or given in the grid's unit (1e-6 * unit): mortar / secondary updates must be conservative with either (the "
+    "tolerance is documented to filter overlaps only for scaling=None), host replacements and replacements of a "
+    "fracture with a 0-d neighbour compare node coordinates with the absolute tol, so in small units it is always "
+    "passed in those units; remesh_1d's own tol likewise. All oracles are relative. Oracle for EVERY interface afterwards, per mortar side: weights >= 0; "
     "X_to_mortar_int restricted to the side has column sum 1 on covered entities (0 elsewhere; each primary face covered "
     "by one side only; all secondary cells covered by every side) and the measure of the covered primary faces equals "
     "the measure of the side; X_to_mortar_avg has row sum 1; int[m,e]*|e| = avg[m,e]*|m| (extensive vs intensive "
@@ -49,7 +56,8 @@ ASSUMPTIONS = [
     "remesh_1d only for fractures / mortar sides without internal boundaries (its docstring: use with care there)",
     "replacement grids cover exactly the same segment as the grid they replace",
 ]
-REQUIRED = {"dim2": 0.4, "dim3": 0.08, "ops0": 0.1, "op-mortar": 0.15, "op-secondary": 0.12, "op-primary": 0.03,
+REQUIRED = {"scaled-small": 0.08, "scaled-large": 0.03, "near-coincident-nodes": 0.06, "tol-default": 0.2, "tol-scaled": 0.1,
+            "dim2": 0.4, "dim3": 0.08, "ops0": 0.1, "op-mortar": 0.15, "op-secondary": 0.12, "op-primary": 0.03,
             "how-refine": 0.2, "how-remesh": 0.1, "has-0d-interface": 0.15, "exact-secondary": 0.3, "exact-primary": 0.3,
             "inexact": 0.05, "one-sided-interface": 0.08}
 
@@ -83,37 +91,60 @@ def _spec(draw, tier):
                 c.append(c[-1] + draw(_f(0.3, 2.0)))
             coords.append(c)
         net["coords"] = coords
+    # length unit: the whole geometry multiplied by a factor
+    # (2-d networks only: the structured 3-d mesher itself is not unit independent - see notes - and 3-d is
+    # checked in the matching state only)
+    unit = draw(st.sampled_from([1.0, 1e-6, 1e-4, 1e-2, 1.0, 1e2, 1e4, 1.0])) if net["dim"] == 2 else 1.0
+    if unit != 1.0:
+        if net.get("coords"):
+            net["coords"] = [[x * unit for x in c] for c in net["coords"]]
+        else:
+            net["phys"] = [x * unit for x in net["phys"]]
     nd = draw(st.sampled_from([1, 2, 3]))
     ops = []
     nf = len(net["fracs"])
     if net["dim"] == 2 and nf:
         split = _split_fracs(net)
+        touched = {k for it in Network(net).inters for k in it["sides"]}   # fractures with a 0-d neighbour
         sec_done = set()
         for _ in range(draw(st.sampled_from([1, 2, 3, 1, 2, 3, 1, 2, 3, 0]))):
             kind = draw(st.sampled_from(["mortar", "secondary", "primary", "mortar", "secondary", "primary", "mortar"]))
             if kind == "primary":
-                ops.append({"k": "primary", "factor": draw(st.sampled_from([1, 2, 2, 3]))})
+                # update_primary compares node coordinates with the (absolute) tolerance: a caller working in small
+                # units passes it in those units; the default is meant for O(1) and larger geometries
+                ops.append({"k": "primary", "factor": draw(st.sampled_from([1, 2, 2, 3])),
+                            "tol": "scaled" if unit < 1 else draw(st.sampled_from(["default", "scaled"]))})
                 continue
             j = draw(st.integers(0, nf - 1))
             if kind == "secondary":
                 if j in sec_done:
                     continue
                 sec_done.add(j)
-            how = "refine" if j in split else draw(st.sampled_from(["refine", "remesh"]))
+            how = "refine" if j in split else draw(st.sampled_from(["refine", "remesh", "nudge"]))
             op = {"k": kind, "frac": j, "how": how}
             if how == "refine":
                 op["r"] = draw(st.sampled_from([2, 3, 4]))
-            else:
+            elif how == "remesh":
                 op["nn"] = draw(st.integers(2, 8))
+            else:   # copy / refinement whose interior nodes are moved by eps * unit: slivers far below any cell size
+                op["r"] = draw(st.sampled_from([1, 1, 2, 3]))
+                op["eps"] = draw(st.sampled_from([5e-7, 1e-7, 1e-9]))
+            # mortar / secondary updates use the overlaps as they are (the tolerance only matters for scaling=None
+            # in match_1d), so the default must do at every length scale; the exception is a fracture with a 0-d
+            # neighbour, whose replacement goes through update_primary's point matching (absolute distance < tol)
+            if kind == "secondary" and j in touched and unit < 1:
+                op["tol"] = "scaled"
+            else:
+                op["tol"] = draw(st.sampled_from(["default", "default", "scaled"]))
             if kind == "mortar":
                 op["sides"] = draw(st.sampled_from(["both", "both", "both", "left", "right", "diff"]))
                 if op["sides"] == "diff":
-                    if how == "refine":
-                        op["r2"] = draw(st.sampled_from([2, 3, 4]))
-                    else:
+                    if how == "remesh":
                         op["nn2"] = draw(st.integers(2, 8))
+                    else:
+                        op["r2"] = draw(st.sampled_from([2, 3, 4]))
             ops.append(op)
-    return {"net": net, "nd": nd, "ops": ops}
+    return {"net": net, "nd": nd, "ops": ops, "unit": unit}
 
 
 @st.composite
@@ -162,7 +193,16 @@ def _known_primary_junction(spec):
     return bool(_split_fracs(spec["net"]))
 
 
+def _known_large_units(spec):
+    """Any replacement on a geometry in large length units (edge >= 1e3: new nodes carry rounding noise that the
+    absolute collinearity tolerance 1e-8 of segments_3d rejects) or in very small units (edge <= 1e-6: refined cells
+    come close to / below that absolute tolerance and count as degenerate)."""
+    u = float(spec.get("unit", 1.0))
+    return (u >= 1e3 or u <= 1e-6) and len(spec.get("ops", [])) > 0
+
+
 KNOWN = {
+    "C26-segments3d-absolute-collinearity-tolerance": _known_large_units,
     "C26-update-primary-counts-old-faces-per-mortar-cell": _known_primary_after_mortar,
     "C26-update-primary-split-nodes-valueerror": _known_primary_junction,
 }
@@ -193,12 +233,27 @@ def _gmsh3(net_s, net, h, fname):
     return pp.create_mdg("simplex", {"cell_size": h * min(net.phys)}, network, file_name=scratch_file(fname))
 
 
-def _new_1d(g, how, r=None, nn=None):
+def _new_1d(g, how, r=None, nn=None, eps=None, unit=1.0):
     import porepy as pp
 
     if how == "refine":
         return pp.refinement.refine_grid_1d(g, ratio=r)
-    new = pp.refinement.remesh_1d(g, num_nodes=nn)
+    if how == "nudge":
+        base = pp.refinement.refine_grid_1d(g, ratio=r) if r > 1 else g
+        x = base.nodes
+        i0 = int(np.argmax(np.linalg.norm(x - x[:, :1], axis=0)))
+        i1 = int(np.argmax(np.linalg.norm(x - x[:, i0:i0 + 1], axis=0)))
+        d = (x[:, i1] - x[:, i0]) / np.linalg.norm(x[:, i1] - x[:, i0])
+        order = np.argsort((x - x[:, i0:i0 + 1]).T @ d, kind="stable")
+        xs = x[:, order].copy()
+        sgn = np.where(np.arange(xs.shape[1] - 2) % 2 == 0, 1.0, -1.0)
+        xs[:, 1:-1] += eps * d[:, None] * sgn[None, :]
+        new = pp.TensorGrid(np.arange(xs.shape[1], dtype=float))
+        new.nodes = xs
+        new.compute_geometry()
+        return new
+    # remesh_1d documents its own absolute tolerance (tag transfer between coinciding faces): given in the grid's unit
+    new = pp.refinement.remesh_1d(g, num_nodes=nn, tol=1e-6 * min(unit, 1.0))
     new.compute_geometry()
     return new
 
@@ -223,11 +278,11 @@ def _face_intervals(g, faces, p, d):
     return out
 
 
-def _overlap(A, B):
+def _overlap(A, B, L=1.0):
     lo = np.maximum(A[:, None, 0], B[None, :, 0])
     hi = np.minimum(A[:, None, 1], B[None, :, 1])
     ov = np.maximum(hi - lo, 0.0)
-    ov[ov < 1e-12] = 0.0
+    ov[ov < 1e-13 * L] = 0.0
     return ov
 
 
@@ -257,7 +312,18 @@ def check(spec):
         mdg = build_lattice_mdg(net_s)
     host = mdg.subdomains(dim=Nd)[0]
     frac = {g.frac_num: g for g in mdg.subdomains(dim=Nd - 1)}
+    unit = float(spec.get("unit", 1.0))
     labels = [f"dim{Nd}", f"nd{spec['nd']}", f"ops{len(spec['ops'])}", f"fracs{len(frac)}"]
+    labels.append("scaled-small" if unit < 1 else ("scaled-large" if unit > 1 else "scaled-unit"))
+
+    def kw(op):
+        """The documented tolerance of replace_subdomains_and_interfaces: default, or given in the grid's unit."""
+        if op.get("tol") == "scaled":
+            labels.append("tol-scaled")
+            return {"tol": 1e-6 * unit}
+        labels.append("tol-default")
+        return {}
+
     labels.append("mesher-gmsh3" if simplex3 else ("mesher-tensor" if net_s.get("coords") else "mesher-cart"))
 
     # geometric side (+1 / -1 w.r.t. a fixed normal of the fracture) of each mortar side, from the matching state
@@ -299,7 +365,7 @@ def check(spec):
             continue
         if op["k"] == "primary":
             new_host = build_lattice_mdg(scale_lattice(net_s, op["factor"])).subdomains(dim=Nd)[0]
-            mdg.replace_subdomains_and_interfaces({host: new_host})
+            mdg.replace_subdomains_and_interfaces({host: new_host}, **kw(op))
             host = new_host
             prim_ops += 1
             labels.append(f"primary-x{op['factor']}")
@@ -309,8 +375,11 @@ def check(spec):
         j = op["frac"]
         labels.append("how-" + op["how"])
         if op["k"] == "secondary":
-            new = _new_1d(frac[j], op["how"], op.get("r"), op.get("nn"))
-            mdg.replace_subdomains_and_interfaces({frac[j]: new})
+            eps = op.get("eps", 0.0) * unit
+            if op["how"] == "nudge":
+                labels.append("near-coincident-nodes")
+            new = _new_1d(frac[j], op["how"], op.get("r"), op.get("nn"), eps, unit)
+            mdg.replace_subdomains_and_interfaces({frac[j]: new}, **kw(op))
             frac[j] = new
             hist[j].append("secondary")
         else:
@@ -323,11 +392,13 @@ def check(spec):
                 if op["sides"] == "right" and pos != len(sides) - 1:
                     continue
                 if op["sides"] == "diff" and pos == 1:
-                    new[side] = _new_1d(sg, op["how"], op.get("r2"), op.get("nn2"))
+                    new[side] = _new_1d(sg, op["how"], op.get("r2"), op.get("nn2"), op.get("eps", 0.0) * unit, unit)
                 else:
-                    new[side] = _new_1d(sg, op["how"], op.get("r"), op.get("nn"))
+                    new[side] = _new_1d(sg, op["how"], op.get("r"), op.get("nn"), op.get("eps", 0.0) * unit, unit)
             labels.append("mortar-sides-" + op["sides"])
-            mdg.replace_subdomains_and_interfaces(interface_map={intf: new})
+            if op["how"] == "nudge":
+                labels.append("near-coincident-nodes")
+            mdg.replace_subdomains_and_interfaces(interface_map={intf: new}, **kw(op))
             hist[j].append("mortar-" + op["how"])
 
     # ---- oracle on every interface
@@ -390,9 +461,9 @@ def check(spec):
                           what="measure of the secondary grid vs measure of the side")
         require(int(covered_any.max(initial=0)) <= 1, "face-covered-by-two-sides", "a primary face is covered by more than one side")
         # one overlap, two scalings
-        require_close(Pi * pm[None, :], Pa * mm[:, None], "primary-int-avg-consistency", rtol=0, atol=tol * max(L, 1.0),
+        require_close(Pi * pm[None, :], Pa * mm[:, None], "primary-int-avg-consistency", rtol=0, atol=tol * float(mm.max()),
                       what="primary_to_mortar_int*|face| vs primary_to_mortar_avg*|mortar cell|")
-        require_close(Si * sm[None, :], Sa * mm[:, None], "secondary-int-avg-consistency", rtol=0, atol=tol * max(L, 1.0),
+        require_close(Si * sm[None, :], Sa * mm[:, None], "secondary-int-avg-consistency", rtol=0, atol=tol * float(mm.max()),
                       what="secondary_to_mortar_int*|cell| vs secondary_to_mortar_avg*|mortar cell|")
         # exact overlaps where the history admits them (host <-> fracture interfaces of 2-d networks)
         # geometric support of the weights: only for 0-d mortars here (for 1-d mortars the exact-overlap comparison
@@ -430,7 +501,7 @@ def check(spec):
                 labels.append("exact-secondary")
                 Is = _cell_intervals(sec, f.p, d)
                 for rows, sg in zip(rows_of, side_grids):
-                    ov = _overlap(_cell_intervals(sg, f.p, d), Is)
+                    ov = _overlap(_cell_intervals(sg, f.p, d), Is, L)
                     require_close(Si[rows], ov / sm[None, :], "secondary-int-overlap", rtol=0, atol=tol,
                                   what="secondary_to_mortar_int vs interval overlap / |secondary cell|")
                     require_close(Sa[rows], ov / mm[rows][:, None], "secondary-avg-overlap", rtol=0, atol=tol,
@@ -454,7 +525,7 @@ def check(spec):
                 sg_sign = np.sign(((prim.cell_centers[:, cells] - prim.face_centers[:, keep]) * normal[j][:, None]).sum(axis=0))
                 for s_idx, (rows, sg) in enumerate(zip(rows_of, side_grids)):
                     mine = keep[sg_sign == side_sign[j][s_idx]]
-                    ov = _overlap(_cell_intervals(sg, f.p, d), _face_intervals(prim, mine, f.p, d))
+                    ov = _overlap(_cell_intervals(sg, f.p, d), _face_intervals(prim, mine, f.p, d), L)
                     ref_i = np.zeros((len(rows), prim.num_faces))
                     ref_a = np.zeros((len(rows), prim.num_faces))
                     ref_i[:, mine] = ov / pm[mine][None, :]
